@@ -186,6 +186,10 @@ def accessor_body(P, name):
     body = f['body']['body']
     if not body or body[-1]['k'] != 'return' or body[-1]['expr'] is None:
         return None
+    # a public generic that happens to be written as one return (`return type_of(self) is String ? ... : method(...)`) is a dispatcher,
+    # not an accessor: it stays a call
+    if not f.get('static') and any(x[0] == 'cond' for x in ir.walk(body[-1]['expr'])):
+        return None
     alias = {}
     for s in body[:-1]:
         if s['k'] != 'decl':
